@@ -939,5 +939,99 @@ theorem splitFace_valence (k : Kernel) (fh : Nat) (hv : ValenceShape k) (hm : Mo
   unfold splitFace
   exact splitFaceAt_valence _ _ _ ((addVertex_keeps k).shape hv) ((addVertex_keeps k).modeOK hm)
 end keeps6
+section stepthm
+
+theorem setEdge_valence (k : Kernel) (e a b : Nat) (hv : ValenceShape k) : ValenceShape (k.setEdge e a b) := by
+  unfold setEdge
+  refine valenceShape_of_eq ?_ ?_ hv <;> first | rfl | (split <;> rfl)
+theorem setFace_valence (k : Kernel) (f : Nat) (hes : List Nat) (hv : ValenceShape k) (hl : hes.length = 3) : ValenceShape (k.setFace f hes) := by
+  unfold setFace
+  constructor <;> simp only []
+  · first | exact all_set _ _ _ hv.1 hl | (split <;> exact all_set _ _ _ hv.1 hl)
+  · first | exact hv.2 | (split <;> exact hv.2)
+theorem setCell_valence (k : Kernel) (c : Nat) (hfs : List Nat) (hv : ValenceShape k) (hl : hfs.length = 4) : ValenceShape (k.setCell c hfs) := by
+  unfold setCell
+  constructor <;> simp only []
+  · first | exact hv.1 | (split <;> exact hv.1)
+  · first | exact all_set _ _ _ hv.2 hl | (split <;> exact all_set _ _ _ hv.2 hl)
+
+/-- `set_face` / `set_cell` are inherited unguarded: their argument must have the right valence -/
+def TetOp.argsOK : TetOp → Prop
+  | .base (.setFace _ hes) => hes.length = 3
+  | .base (.setCell _ hfs) => hfs.length = 4
+  | _ => True
+
+/-- the operation does not reach an index-shifting erase of a face or edge slot: it runs in deferred
+    or in fast mode (or, for the garbage-collecting ones, there is nothing to collect) -/
+def ShiftFree (k : Kernel) : TetOp → Prop
+  | .base (.deleteFace _) | .base (.deleteEdge _) | .base (.deleteVertex _) | .collapse _ | .splitEdge _ | .splitFace _ => ModeOK k
+  | .base .collectGarbage | .base (.enableDeferred false) | .probeMode false _ => k.fast = true ∨ k.deferred = false
+  | _ => True
+
+instance (k : Kernel) : Decidable (ModeOK k) := by unfold ModeOK; infer_instance
+instance (op : TetOp) : Decidable op.argsOK := by unfold TetOp.argsOK; split <;> infer_instance
+instance (k : Kernel) (op : TetOp) : Decidable (ShiftFree k op) := by unfold ShiftFree; split <;> infer_instance
+
+theorem valenceShape_stepTetX (k : Kernel) (op : TetOp) (hv : ValenceShape k) (ha : op.argsOK) (hs : ShiftFree k op) :
+    ValenceShape (k.stepTetX op).1 := by
+  cases op with
+  | base o =>
+    cases o with
+    | addVertex => exact (addVertex_keeps k).shape hv
+    | addNVertices n => exact (addNVertices_keeps k n).shape hv
+    | addEdge a b d => exact (addEdge_keeps k a b d).shape hv
+    | addFaceHe chk hes => exact (tetAddFace_keeps k hes chk).shape hv
+    | addFaceV vs => exact (tetAddFaceV_keeps k vs).shape hv
+    | addCell chk hfs => exact (tetAddCell_keeps k hfs chk).shape hv
+    | setEdge e a b => exact setEdge_valence k e a b hv
+    | setFace f hes => exact setFace_valence k f hes hv ha
+    | setCell c hfs => exact setCell_valence k c hfs hv ha
+    | deleteVertex v => exact (deleteVertex_keeps k v hs).shape hv
+    | deleteEdge e => exact (deleteEdge_keeps k e hs).shape hv
+    | deleteFace f => exact (deleteFace_keeps k f hs).shape hv
+    | deleteCell c => exact (deleteCell_keeps k c).shape hv
+    | swapVertex a b => exact swapVertex_valence k a b hv
+    | swapEdge a b => exact swapEdge_valence k a b hv
+    | swapFace a b => exact swapFace_valence k a b hv
+    | swapCell a b => exact swapCell_valence k a b hv
+    | collectGarbage =>
+      rcases hs with h | h
+      · exact (collectGarbage_keeps k h).shape hv
+      · show ValenceShape k.collectGarbage
+        unfold collectGarbage; simp [h]; exact hv
+    | enableDeferred b =>
+      cases b with
+      | true => exact enableDeferred_valence k true hv (Or.inr (Or.inr rfl))
+      | false =>
+        rcases hs with h | h
+        · exact enableDeferred_valence k false hv (Or.inl h)
+        · exact enableDeferred_valence k false hv (Or.inr (Or.inl h))
+    | enableFast b => exact enableFast_valence k b hv
+    | enableBU kind b =>
+      show ValenceShape (if kind == 0 then k.enableVBU b else if kind == 1 then k.enableEBU b else k.enableFBU b)
+      split
+      · exact enableVBU_valence k b hv
+      · split
+        · exact enableEBU_valence k b hv
+        · exact enableFBU_valence k b hv
+    | clear p => exact clear_valence k p
+  | addHalfedge a b => exact (tetAddHalfedge_keeps k a b).shape hv
+  | addHalffaceHe chk hes => exact (tetAddHalfface_keeps k hes chk).shape hv
+  | addHalfface3 chk a b c => exact (tetAddHalfface3_keeps k a b c chk).shape hv
+  | addCellV chk vs => exact (tetAddCellV_keeps k vs chk).shape hv
+  | addCell4 chk a b c d => exact (tetAddCell4_keeps k a b c d chk).shape hv
+  | collapse h => exact collapseEdge_valence k h hv hs
+  | probeMode d f =>
+    show ValenceShape ((k.enableDeferred d).enableFast f)
+    apply enableFast_valence
+    cases d with
+    | true => exact enableDeferred_valence k true hv (Or.inr (Or.inr rfl))
+    | false =>
+      rcases hs with h | h
+      · exact enableDeferred_valence k false hv (Or.inl h)
+      · exact enableDeferred_valence k false hv (Or.inr (Or.inl h))
+  | splitEdge h => exact splitEdge_valence k h hv hs
+  | splitFace f => exact splitFace_valence k f hv hs
+end stepthm
 end Kernel
 end OVM
